@@ -2631,9 +2631,10 @@ def groupby_reduce(
             raise ValueError("Please pass `q` for quantile calculations.")
         else:
             nq = len(_atleast_1d(finalize_kwargs["q"]))
-            if nq > 1 and engine == "numpy":
+            # engine="numbagg" computes quantiles with the numpy engine's kernels
+            if nq > 1 and engine in ["numpy", "numbagg"]:
                 raise ValueError(
-                    "Multiple quantiles not supported with engine='numpy'."
+                    f"Multiple quantiles not supported with engine={engine!r}."
                     "Use engine='flox' instead (it is also much faster), "
                     "or set engine=None to use the default."
                 )
